@@ -48,12 +48,13 @@ type c20file interface {
 // added and flushed before the sequence starts (a populated table as the starting state).
 func c20Exec(batch uint32, realFile bool, universe [][]byte, pre int, trace []int) (key, class, vio string) {
 	nU := len(universe) - pre
-	opFlush, opReopen := nU, nU+1
+	opFlush, opReopen, opReopenEnd := nU, nU+1, nU+2
 	var mf *stores.MemFile
 	var f *os.File
 	var path string
 	var hs *index.HashSet
 	var err error
+	atEnd := false
 	open := func() error {
 		if realFile {
 			if f == nil {
@@ -68,6 +69,9 @@ func c20Exec(batch uint32, realFile bool, universe [][]byte, pre int, trace []in
 				if e != nil {
 					return e
 				}
+				if atEnd {
+					ff.Seek(0, 2)
+				}
 				f = ff
 			}
 			hs, err = index.NewHashSet(f, batch)
@@ -75,6 +79,8 @@ func c20Exec(batch uint32, realFile bool, universe [][]byte, pre int, trace []in
 		}
 		if mf == nil {
 			mf = &stores.MemFile{}
+		} else if atEnd {
+			mf = mf.ReopenAtEnd()
 		} else {
 			mf = mf.Reopen()
 		}
@@ -148,7 +154,8 @@ func c20Exec(batch uint32, realFile bool, universe [][]byte, pre int, trace []in
 				flushed[p] = true
 			}
 			pending = pending[:0]
-		case op == opReopen:
+		case op == opReopen || op == opReopenEnd:
+			atEnd = op == opReopenEnd
 			if err := hs.Close(); err != nil {
 				return "", "error", "Close: " + err.Error()
 			}
@@ -185,6 +192,11 @@ func c20Exec(batch uint32, realFile bool, universe [][]byte, pre int, trace []in
 	}
 	var kb bytes.Buffer
 	kb.Write(raw())
+	// how the current handle was opened is part of the state: what the implementation caches when it
+	// opens the file is not visible in the file bytes
+	if atEnd {
+		kb.WriteByte('E')
+	}
 	kb.WriteByte('|')
 	for _, p := range pending {
 		kb.WriteByte(byte(p))
@@ -264,8 +276,10 @@ func c20OpName(universe [][]byte, op int) string {
 		return fmt.Sprintf("Add(%02x..%02x%02x)", h[0], h[7], h[15])
 	case op == len(universe):
 		return "Flush"
-	default:
+	case op == len(universe)+1:
 		return "Reopen"
+	default:
+		return "Reopen(handle positioned at the end)"
 	}
 }
 
@@ -286,7 +300,7 @@ func c20Preloaded(name string, batch uint32, pre int, depth map[string]int) *mc.
 	nOps := len(u) - pre
 	spec := func(d int) *mc.BFSSpec {
 		return &mc.BFSSpec{
-			NumOps:   nOps + 2,
+			NumOps:   nOps + 3,
 			MaxDepth: d,
 			Exec:     func(tr []int) (string, string, string) { return c20Exec(batch, false, u, pre, tr) },
 			OpName:   func(op int) string { return c20OpName(u[:nOps], op) },
@@ -311,7 +325,7 @@ func c20Harness(name string, batch uint32, realFile bool, nU int, depth map[stri
 	}
 	spec := func(d int) *mc.BFSSpec {
 		return &mc.BFSSpec{
-			NumOps:   len(u) + 2,
+			NumOps:   len(u) + 3,
 			MaxDepth: d,
 			Exec:     func(tr []int) (string, string, string) { return c20Exec(batch, realFile, u, 0, tr) },
 			OpName:   func(op int) string { return c20OpName(u, op) },
@@ -334,7 +348,7 @@ func init() {
 	register(&mc.Check{
 		ID:    "C20",
 		Level: "model_checking",
-		Rule: "explicit-state BFS over all sequences of Add(h)/Flush/close-and-reopen on the real index.HashSet, h from a 10-hash universe " +
+		Rule: "explicit-state BFS over all sequences of Add(h)/Flush/close-and-reopen (through a handle positioned at the start or at the end of the file) on the real index.HashSet, h from a 10-hash universe " +
 			"(first bytes 00,01,7f,ff; equal first bytes; neighbours differing in the last or a middle byte), batch sizes 1,2,3,1024; " +
 			"a state is the raw file bytes + pending batch + model set; every transition is executed on the implementation and compared with a Go map " +
 			"(Has for every universe hash after every step; sortedness and fan-out of the raw file whenever nothing is pending). " +
